@@ -34,7 +34,8 @@ from srctools.keyvalues import Keyvalues  # noqa: E402
 from srctools.math import Angle, Vec  # noqa: E402
 from srctools.tokenizer import Tokenizer  # noqa: E402
 
-REPO = os.path.dirname(os.path.dirname(os.path.dirname(os.path.realpath(srctools.__file__))))
+# the sample files live in the repository's tests directory (also when VERIF_SRC points at a mutated copy of src/)
+REPO = '/repo' if os.path.isdir('/repo/tests') else os.path.dirname(os.path.dirname(os.path.dirname(os.path.realpath(srctools.__file__))))
 
 
 def fl(x) -> str:
